@@ -91,12 +91,48 @@ package chacha20poly1305
 //@ ensures implies(result1 != nil, result0 == nil)
 // on failure no plaintext (and nothing else) is left in the output area
 //@ ensures implies(result1 != nil && inplace(dst, N), forall(i, 0, N, dst[0:len(dst)+N][len(dst) + i] == 0))
+// the bytes of dst itself are never written
+//@ ensures forall(i, 0, len(dst), dst[i] == old(dst[i]))
 //@ check_at "ret, out := sliceForAppend(dst, len(ciphertext))" ghost(p, hlen) == p16(len(additionalData)) + p16(N) + 16 && pos(s) == 64
 //@ check_at "ret, out := sliceForAppend(dst, len(ciphertext))" forall(q, 0, len(additionalData), ghost(p, hbuf)[q] == additionalData[q]) && forall(q, len(additionalData), p16(len(additionalData)), ghost(p, hbuf)[q] == 0)
 //@ check_at "ret, out := sliceForAppend(dst, len(ciphertext))" forall(q, 0, N, ghost(p, hbuf)[p16(len(additionalData)) + q] == ciphertext[q]) && forall(q, N, p16(N), ghost(p, hbuf)[p16(len(additionalData)) + q] == 0)
 //@ check_at "ret, out := sliceForAppend(dst, len(ciphertext))" forall(q, 0, 8, ghost(p, hbuf)[p16(len(additionalData)) + p16(N) + q] == (len(additionalData) / spec.pow2f(8 * q)) % 256)
 //@ check_at "ret, out := sliceForAppend(dst, len(ciphertext))" forall(q, 0, 8, ghost(p, hbuf)[p16(len(additionalData)) + p16(N) + 8 + q] == (N / spec.pow2f(8 * q)) % 256)
 //@ loop 1 invariant -1 <= rangeindex && rangeindex < len(out) && forall(k, 0, rangeindex + 1, out[k] == 0)
+//@ loop 1 invariant forall(i, 0, len(entry(dst)), entry(dst)[i] == old(entry(dst)[i]))
 //@ mark PRE "if !p.Verify(tag) {"
 //@ check_at "return ret, nil" forall(i, 0, N, out[i] == at(PRE, ciphertext[i]) ^ spec.ks(s, 64 + i))
+//@ canary ensures result1 == nil
+
+// ---- the Go wrapper around the amd64 assembly Open (chacha20poly1305_amd64.go) ----
+// The assembly itself (chacha20Poly1305Open: decrypts into dst while authenticating, answers whether the
+// tag matched) is trusted to write only dst[0:len(src)]. What is proved of the wrapper: the same panic
+// conditions, frame and failure behaviour as openGeneric - on a failed tag check nil, errOpen is returned,
+// every byte of the claimed output area is zero again and the bytes of dst itself are untouched.
+//@ func chacha20Poly1305Open
+//@ trusted
+//@ note assembly (chacha20poly1305_amd64.s): not verified; assumed to write only dst[0:len(src)]
+//@ requires len(dst) >= len(src) && len(key) == 16
+//@ modifies dst[0:len(src)]
+
+//@ func setupState
+//@ props C02
+//@ nonnil state key
+//@ requires len(nonce) >= 12
+//@ modifies *state
+
+//@ func (*chacha20poly1305).open
+//@ props C02
+//@ reindex
+//@ assume_global errOpen != nil
+//@ requires len(nonce) == 12 && len(ciphertext) >= 16 && len(ciphertext) <= 274877906896 && len(dst) + len(ciphertext) <= 281474976710656
+//@ panics_when inexact(dst, len(ciphertext) - 16, ciphertext[:len(ciphertext)-16]) || anyov(dst, len(ciphertext) - 16, additionalData)
+//@ modifies heap
+//@ let N = len(ciphertext) - 16
+//@ ensures implies(result1 == nil, len(result0) == len(dst) + N && forall(i, 0, len(dst), result0[i] == old(dst[i])))
+//@ ensures implies(result1 != nil, result0 == nil)
+//@ ensures implies(result1 != nil && inplace(dst, N), forall(i, 0, N, dst[0:len(dst)+N][len(dst) + i] == 0))
+//@ ensures forall(i, 0, len(dst), dst[i] == old(dst[i]))
+//@ loop 1 invariant -1 <= rangeindex && rangeindex < len(out) && forall(k, 0, rangeindex + 1, out[k] == 0)
+//@ loop 1 invariant forall(i, 0, len(entry(dst)), entry(dst)[i] == old(entry(dst)[i]))
 //@ canary ensures result1 == nil
